@@ -24,7 +24,8 @@ MC_Faults ==
 (*          use.  Both checkers answer alike (two objects, one function).  *)
 (*  pocket7 line of 7 points; checker V1 accepts everything, checker V2    *)
 (*          rejects point 4 (a wall that seals off {5, 6}); P1 = 0 -> {3}  *)
-(*          (solvable under both), P2 = 0 -> {6} (solvable under V1 only:  *)
+(*          (solvable under both), P2 = 2 -> {6} (solvable under V1 only;  *)
+(*          its start connections lie on P1's route;                       *)
 (*          under V2 start connections and goal milestones exist but in    *)
 (*          different components); connection radius 1.5, so P1 needs a    *)
 (*          multi-hop roadmap path.                                        *)
@@ -37,7 +38,7 @@ AllPts == 0 .. (NPts - 1)
 W1 == IF Pocket \/ ValidAll THEN AllPts ELSE AllPts \ {4}
 W2 == IF Pocket THEN AllPts \ {4} ELSE W1
 MC_Worlds == <<W1, W2>>
-MC_Probs == IF Pocket THEN << [start |-> 0, goal |-> {3}], [start |-> 0, goal |-> {6}] >>
+MC_Probs == IF Pocket THEN << [start |-> 0, goal |-> {3}], [start |-> 2, goal |-> {6}] >>
                       ELSE << [start |-> 0, goal |-> {3}], [start |-> 4, goal |-> {0}] >>
 MC_StartValid == [v \in 1 .. 2 |-> [p \in 1 .. 2 |-> MC_Probs[p].start \in MC_Worlds[v]]]
 \* "own": problem i always comes with checker object i; "free": any combination
@@ -53,8 +54,12 @@ Emit ==
                              probs |-> MC_Probs,
                              build |-> IF Pocket THEN 16 ELSE 3, solve_t |-> IF Pocket THEN 8 ELSE 4,
                              autoscript |-> TRUE, fault |-> fault,
+                             \* the parameter values a "setparams" call assigns (radius only ever raised for PRM:
+                             \* C05 bounds roadmap links by the radius in force)
+                             alt |-> [maxd |-> 2, rad2 |-> IF Pocket THEN 5 ELSE 7, bias |-> "1"],
                              calls |-> [i \in 1 .. Len(hist') |->
                                           IF hist'[i].c = "setup" THEN [c |-> "setup", i |-> hist'[i].i, v |-> hist'[i].v]
                                           ELSE IF hist'[i].c = "setpd" THEN [c |-> "setpd", i |-> hist'[i].i, v |-> 0]
+                                          ELSE IF hist'[i].c = "solve" THEN [c |-> "solve", i |-> hist'[i].i, v |-> 0]
                                           ELSE [c |-> hist'[i].c, i |-> 0, v |-> 0]]])>>)
 =============================================================================
